@@ -1,7 +1,7 @@
 (* Properties_C11.v -- any pattern string is safely rejected or compiled; matching stays in bounds.
    Statements only; proofs are in ReProps*.v. *)
 From Coq Require Import List NArith ZArith.
-From NV Require Import Bytes GenConsts ReSyntax ReParse ReEmit ReVM ReSem RsetDefs ReProps ReProps2 ReProps3 ReProps5 ReProps6 ReProps7.
+From NV Require Import Bytes GenConsts ReSyntax ReParse ReEmit ReVM ReSem RsetDefs ReProps ReProps2 ReProps3 ReProps4 ReProps5 ReProps6 ReProps7 ReProps8.
 Import ListNotations.
 
 (* for EVERY byte string: if regcomp accepts it, the emitted program (MARK 0, code, MARK 1, MATCH)
@@ -44,6 +44,16 @@ Theorem C11_terminates : forall (pat : bytes) (p : prog) (flg : Z) (line : bytes
   forall d pc s, pc < length (code p) -> fst (rec st (atom_step flg line) mark_step (code p) d pc s) <> Abort.
 Proof. exact terminates. Qed.
 Print Assumptions C11_terminates.
+
+(* for EVERY accepted pattern string, every line, flags and depth: each (so, eo) pair regexec reports is
+   -1/-1 or satisfies 0 <= so <= eo <= length of the line (positions only grow and never pass the end
+   of the line, a group's closing mark is written after its opening mark on every derivation; marks
+   with index >= NGRPS are never written -- by definition of mark_step -- and read as -1) *)
+Theorem C11_exec_bounds : forall pat p cflg line nsub eflg d subs c,
+  regcomp pat = Ok (Some p) -> regexec_d d p cflg line nsub eflg = (Ok (Some subs), c) ->
+  Forall (fun se : Z * Z => se = ((-1)%Z, (-1)%Z) \/ (0 <= fst se <= snd se /\ snd se <= Z.of_nat (length line))%Z) subs.
+Proof. exact regexec_bounds. Qed.
+Print Assumptions C11_exec_bounds.
 
 (* for EVERY byte string without NUL that ends in ')' -- every string rset_make hands to regcomp does
    (C11_rset_pattern_ends_in_paren) -- the parser returns a tree or a rejection together with the
